@@ -113,6 +113,7 @@ func (pr *ProtoArray) CanonicalChain(anchorRoot Root, anchorSlot Slot) ([]Extend
 		return nil, err
 	}
 	chain := make([]ExtendedNodeRef, 0, len(pr.nodes))
+	anchorIndex := pr.indices[NodeRef{Root: anchorRoot, Slot: anchorSlot}]
 	index := pr.indices[head]
 	for index != NONE && index >= pr.indexOffset {
 		node, err := pr.getNode(index)
@@ -120,6 +121,10 @@ func (pr *ProtoArray) CanonicalChain(anchorRoot Root, anchorSlot Slot) ([]Extend
 			return nil, err
 		}
 		chain = append(chain, ExtendedNodeRef{NodeRef: node.Ref, ParentRoot: node.ParentRoot})
+		// stop at the anchor, it is the last node of the chain.
+		if index == anchorIndex {
+			break
+		}
 		index = node.TransitionParent
 	}
 	return chain, nil
